@@ -26,6 +26,38 @@ THEOREMS = [
     "MysticVerif.C17.pen_or_zero",
     "MysticVerif.C17.pen_not_interior_ineq",
     "MysticVerif.C17.pen_not_interior_eq",
+    # extended model (every except clause, members as call-indexed oracles): Props/C17/Ext.lean
+    "MysticVerif.C17X.and_success_links_oracle",
+    "MysticVerif.C17X.and_success_links",
+    "MysticVerif.C17X.and_success_fixed_all_but_one",
+    "MysticVerif.C17X.and_success_fixed",
+    "MysticVerif.C17X.and_not_fixed_witness",
+    "MysticVerif.C17X.and_collision_witness",
+    "MysticVerif.C17X.and_calls_bounded",
+    "MysticVerif.C17X.and_draws_bounded",
+    "MysticVerif.C17X.or_success_fixed_oracle",
+    "MysticVerif.C17X.or_success_fixed",
+    "MysticVerif.C17X.or_calls_bounded",
+    "MysticVerif.C17X.or_swallow_classes_differ",
+    "MysticVerif.C17X.not_success_moved_oracle",
+    "MysticVerif.C17X.not_success_moved",
+    "MysticVerif.C17X.not_calls_bounded",
+    # the extended model restricted to deterministic, non-propagating members IS Model/Combinators
+    "MysticVerif.CombX.and_agree",
+    "MysticVerif.CombX.or_agree",
+    "MysticVerif.CombX.not_agree",
+    # penalty combinators on the penalty-object model of C15 (Model/PenaltyTree): Props/C17/Pen.lean
+    "MysticVerif.C17.pen_tree_and_zero",
+    "MysticVerif.C17.pen_tree_and_raise",
+    "MysticVerif.C17.pen_tree_or_zero",
+    "MysticVerif.C17.pen_tree_not_ineq",
+    "MysticVerif.C17.pen_tree_not_eq",
+    # couplers with argument bundles, proxies, with_constraint: Props/C17/Cpl.lean
+    "MysticVerif.C17.inner_args_spec",
+    "MysticVerif.C17.outer_args_spec",
+    "MysticVerif.C17.additive_args_spec",
+    "MysticVerif.C17.proxy_spec",
+    "MysticVerif.C17.with_constraint_spec",
 ]
 
 
@@ -412,12 +444,24 @@ def main(tier, seed):
         return r["findings"]
     rule = ("cases: random and_/or_/not_ over 0-4 DSL members (clamp/pin/rint/tie/id + non-idempotent addUntil/rot/swap/"
             "self-scaling/zero-dividing), dim 1-4, maxiter in {0..20}, integer/dyadic/general inputs; random draws recorded "
-            "from the real run and replayed by the model. non-trivial = the run went past the first pass (cycling phase entered)")
+            "from the real run and replayed by the model. non-trivial = the run went past the first pass (cycling phase entered). "
+            "xcomb: the same with members behind guards that raise (ZeroDivisionError / swallowed TypeError-ValueError / propagating "
+            "classes incl. numpy FloatingPointError, OverflowError, argument-less and non-str-message exceptions), return shorter / "
+            "longer vectors, scribble over their argument before raising (non-trivial = past the first pass or raised). "
+            "oracle: stateful / non-deterministic python members, every call recorded and replayed as an oracle; the model must hand "
+            "every call the vector the real member received. pen: coupler.and_/or_/not_ objects over members of all nine penalty types "
+            "(ptype / with_penalty / as_penalty leaves, k, h, iter(n), nesting depth <= 2) evaluated at 4 points vs PenaltyTree.evalT, "
+            "bit-exact in the dyadic regime, rel 1e-9 otherwise (counted separately). cpl: the six couplers and with_constraint with "
+            "decorator-time and call-time arguments (args / kwds) vs Model/Couplers, bit-exact. agree: every old-stream request is also "
+            "run through the extended model; the two replies must be identical")
     tb = ["Lean 4.33 kernel + Mathlib-free core lemmas; axioms per theorem listed under coverage.theorems",
-          "hand-written model Model/Combinators.lean tied to constraints.and_/or_/not_ by this bit-exact differential run only",
+          "hand-written models Model/Combinators.lean, Model/CombinatorsX.lean tied to constraints.and_/or_/not_ by this bit-exact differential run only",
+          "harness/c17x.py classify()/make_exc(): the reading of the except clauses (which exception objects are swallowed) - a change of the clauses in the code shows up as a divergence",
+          "Model/PenaltyTree.lean (built and proved about by C15; imported unchanged) tied to coupler.and_/or_/not_ objects by C17's own pen stream",
           "DSL twins harness/dsl.py and Model/Dsl.lean (compared through the same run)",
-          "coupler.py inner/outer/additive and penalty and_/or_/not_: one-line models; behaviour checked on the implementation by the monitor"]
+          "coupler.py inner/outer/additive (+ _proxy, with_constraint): Model/Couplers.lean compared bit-exactly; value-semantics / reuse checked by the monitor"]
     assumptions = ["members are deterministic python callables returning lists (numpy arrays make `!=` ambiguous in not_)",
-                   "only ZeroDivisionError is modelled among the exceptions the combinators swallow",
+                   "members return python lists of floats or raise; None / tuple / ndarray returns and NaN entries (python compares list items by identity first) are outside the correspondence",
+                   "as_constraint (a DE solve, random) is not modelled",
                    "IEEE binary64 + - * / and comparisons agree between Lean Float and CPython"]
     return framework.finish(PID, tier, seed, t0, proof, run, rule, tb, assumptions, search_more=search_more)
